@@ -107,6 +107,9 @@ func genShutdownIR(repo string) (genFile, error) {
 			case strings.HasPrefix(t, "var ("), strings.HasPrefix(t, "opts = GetOptions()"), strings.HasPrefix(t, "runtime.GOMAXPROCS("),
 				strings.HasPrefix(t, "logger = "), strings.HasPrefix(t, "if !opts.ProducerEnabled"), strings.HasPrefix(t, "protos := []proto{"):
 				// set-up, no synchronisation
+			case t == `if opts.IPFIXEnabled { if err := ipfix.LoadExtElements(opts.VFlowConfigPath); err != nil { logger.Println("load.ext.elements:", err) } }`:
+				// the information model shared by the IPFIX and NetFlow v9 decoders is replaced here
+				msteps = append(msteps, ".loadElements")
 			case t == "signal.Notify(signalCh, syscall.SIGINT, syscall.SIGTERM)":
 				msteps = append(msteps, ".notifySigintSigterm")
 			case t == "for _, p := range protos { wg.Add(1) go func(p proto) { defer wg.Done() p.run() }(p) }":
